@@ -553,6 +553,10 @@ impl<H: Hooks> Gen<H> {
                 }
                 x -= wt;
             }
+            // warm-up: with fewer than 4 live nodes most draws would be `self` pairs
+            if v.live.len() < 4 && can_alloc && self.rng.chance(0.5) {
+                op = if v.live.is_empty() || self.rng.chance(0.6) { "new" } else { "appv" };
+            }
             let cmd = match op {
                 "new" if can_alloc => format!("new {}", self.fresh_v()),
                 "appv" if can_alloc => match self.one_arg(&v, op) {
